@@ -15,7 +15,9 @@ Model: Cedar/Manifest.lean (`manifestOfExpr` = `entity_manifest_from_expr` on th
                                  non-record leaves are kept unchanged;
   * `manifest_sound_partial`     CORE FRAGMENT (`InFrag`: literals, variables, `.`/`has` chains through records and
                                  entities, `&& || !`, `if` (also producing entities / records that are dereferenced),
-                                 unary `-`, `== < <= + - *`, `like`, `is`): every store that is a sub-store of the full
+                                 unary `-`, `isEmpty`, `== < <= + - *`, `in` (entity and set right-hand sides, with the
+                                 ancestors-required tries), `contains containsAll containsAny`, `like`, `is`; operands
+                                 of binary operators must not be records): every store that is a sub-store of the full
                                  store and *covers* the trie computed by the analysis evaluates the expression exactly as
                                  the full store does (same value up to dropped record fields, same error);
   * `response_sliced_partial`    lifted to the authorizer: same `Response` (decision, reasons, errors), hence by C01 the
@@ -164,9 +166,13 @@ def pol : TPolicy := ⟨"p0", .permit, cond⟩
 /-- `forbid … when { principal.name == "mallory" }` -/
 def pol2 : TPolicy := ⟨"p1", .forbid,
   .binaryApp .eq (some .string) (some .string) (.getAttr (.var .principal) "name") (.lit (.string "mallory"))⟩
+/-- `permit … when { principal in Group::"g" }` -/
+def pol3 : TPolicy := ⟨"p2", .permit,
+  .binaryApp .mem (some (.entity ["User"])) (some (.entity ["Group"])) (.var .principal) (.lit (.entityUID grp))⟩
 def trie1 : RootAccessTrie := match manifestOfExpr cond with | .ok r => r.global | .error _ => []
 def trie2 : RootAccessTrie := match manifestOfExpr pol2.cond with | .ok r => r.global | .error _ => []
-def trie : RootAccessTrie := unionAll [trie1, trie2]
+def trie3 : RootAccessTrie := match manifestOfExpr pol3.cond with | .ok r => r.global | .error _ => []
+def trie : RootAccessTrie := unionAll [trie1, trie2, trie3]
 def userTy : EntityTypeEntry :=
   { attrs := [("age", true, CedarType.long), ("name", true, CedarType.string)], isOpen := false, tags := none,
     descendants := [], enumIds := none }
@@ -185,29 +191,32 @@ def typedTrie : RootAccessTrie :=
 def sliced : Entities := sliceStorePure typedTrie req store
 end Ex
 
-/-- the slice: `bob` and the group are gone, `doc.title` is gone, no ancestors are kept -/
+/-- the slice: `bob` and the group are gone, `doc.title` is gone, the requested ancestor of `alice` is kept, the
+(unrequested) ancestor of the document is dropped -/
 example : (Ex.sliced.map (·.1) = [Ex.doc, Ex.alice]) ∧
     (Ex.sliced.find? Ex.doc).map (fun d => d.attrs.map (·.1)) = some ["owner"] ∧
-    (Ex.sliced.find? Ex.alice).map (fun d => (d.attrs.map (·.1), d.ancestors)) = some (["age", "name"], []) ∧
+    (Ex.sliced.find? Ex.alice).map (fun d => (d.attrs.map (·.1), d.ancestors)) = some (["age", "name"], [Ex.grp]) ∧
+    (Ex.sliced.find? Ex.doc).map (fun d => d.ancestors) = some [] ∧ (Ex.store.find? Ex.doc).map (fun d => d.ancestors) = some [Ex.grp] ∧
     sliceFault Ex.typedTrie Ex.req Ex.store = none := by
   decide +kernel
 
 /-- non-vacuity of `response_sliced_partial` / `manifest_sound_partial`: all hypotheses hold for the slice computed by the
 model's slicer, the response is `Allow` by `p0` on both stores -/
 example :
-    isAuthorized Ex.req Ex.sliced [Ex.pol.toPolicy, Ex.pol2.toPolicy] =
-      isAuthorized Ex.req Ex.store [Ex.pol.toPolicy, Ex.pol2.toPolicy] ∧
-    (isAuthorized Ex.req Ex.store [Ex.pol.toPolicy, Ex.pol2.toPolicy]).decision = .allow := by
+    isAuthorized Ex.req Ex.sliced [Ex.pol.toPolicy, Ex.pol2.toPolicy, Ex.pol3.toPolicy] =
+      isAuthorized Ex.req Ex.store [Ex.pol.toPolicy, Ex.pol2.toPolicy, Ex.pol3.toPolicy] ∧
+    (isAuthorized Ex.req Ex.store [Ex.pol.toPolicy, Ex.pol2.toPolicy, Ex.pol3.toPolicy]).reasons = ["p0", "p2"] := by
   constructor
   · have hsub : SubStore Ex.store Ex.sliced := subStoreB_sound _ _ (by decide +kernel)
     have hctx : CtxWF Ex.req := ctxWF_of_check _ (by decide +kernel)
-    have hcov : CoverRoots Ex.store Ex.sliced Ex.req (unionAll [Ex.trie1, Ex.trie2]) :=
+    have hcov : CoverRoots Ex.store Ex.sliced Ex.req (unionAll [Ex.trie1, Ex.trie2, Ex.trie3]) :=
       coverRootsB_sound _ _ _ _ (by decide +kernel)
-    refine response_sliced_partial Ex.req Ex.store Ex.sliced hsub hctx [Ex.pol, Ex.pol2] [Ex.trie1, Ex.trie2] ?_ hcov
+    refine response_sliced_partial Ex.req Ex.store Ex.sliced hsub hctx [Ex.pol, Ex.pol2, Ex.pol3]
+      [Ex.trie1, Ex.trie2, Ex.trie3] ?_ hcov
     intro p hp
     simp only [List.mem_cons, List.not_mem_nil, or_false] at hp
-    rcases hp with e | e <;> subst e
-    · refine ⟨by simp [Ex.pol, Ex.cond, InFrag], ?_, ?_⟩
+    rcases hp with e | e | e <;> subst e
+    · refine ⟨by simp [Ex.pol, Ex.cond, InFrag, FragOp], ?_, ?_⟩
       · simp only [Ex.pol, Ex.cond, SafeOps, and_true]
         exact ⟨⟨nonRec_of_check rfl, nonRec_of_check rfl⟩, nonRec_of_check rfl, nonRec_of_check rfl⟩
       · obtain ⟨r, hr⟩ := ok_of_check (r := manifestOfExpr Ex.pol.cond) rfl
@@ -215,13 +224,21 @@ example :
         have : Ex.trie1 = r.global := by
           simp only [Ex.trie1, show manifestOfExpr Ex.cond = .ok r from hr]
         simp [this]
-    · refine ⟨by simp [Ex.pol2, InFrag], ?_, ?_⟩
+    · refine ⟨by simp [Ex.pol2, InFrag, FragOp], ?_, ?_⟩
       · simp only [Ex.pol2, SafeOps, and_true]
         exact ⟨nonRec_of_check rfl, nonRec_of_check rfl⟩
       · obtain ⟨r, hr⟩ := ok_of_check (r := manifestOfExpr Ex.pol2.cond) rfl
         refine ⟨r, hr, ?_⟩
         have : Ex.trie2 = r.global := by
           simp only [Ex.trie2, hr]
+        simp [this]
+    · refine ⟨by simp [Ex.pol3, InFrag, FragOp], ?_, ?_⟩
+      · simp only [Ex.pol3, SafeOps, and_true]
+        exact ⟨nonRec_of_check rfl, nonRec_of_check rfl⟩
+      · obtain ⟨r, hr⟩ := ok_of_check (r := manifestOfExpr Ex.pol3.cond) rfl
+        refine ⟨r, hr, ?_⟩
+        have : Ex.trie3 = r.global := by
+          simp only [Ex.trie3, hr]
         simp [this]
   · decide +kernel
 
@@ -238,7 +255,7 @@ of the static policy `p` yields in the request environment `rt`" (C03's subject;
 typed `False` yields no typed AST) and `Conformant` for conformance of request and store (C11's subject).  Outside, by
 construction or by finding: policies using tags are rejected by the analysis (`MErr.unsupported`); templates
 (`slot`) and environments without a typed AST are excluded here because the property FAILS for them (known findings);
-everything else — `in`, `contains*`, `isEmpty`, record / set literals, extension calls, `to_typed` pruning, and the slicer
+everything else — record / set literals, `==` / `contains` on records, extension calls, `to_typed` pruning, and the slicer
 itself (`SlicerMeetsSpec`) — is inside the statement and outside `manifest_sound_partial`. -/
 def FullStatement (TypedAst : Schema → ReqType → Policy → TExpr → Prop)
     (Conformant : Schema → Request → Entities → Prop) : Prop :=
